@@ -73,7 +73,7 @@ def enum_shapes(names, widths=(8,)):
 
 # --------------------------------------------------------------------------- bit-field sweep
 
-def bitfield_packets(names, rng, enums_by_width, count, sizes_ok=True):
+def bitfield_packets(names, rng, enums_by_width, count, sizes_ok=True, quick=False):
     """packets made of bit-field groups; every group width 8..64 and every field kind."""
     out = []
     widths = [8, 16, 24, 32, 40, 48, 56, 64]
@@ -122,7 +122,10 @@ def bitfield_packets(names, rng, enums_by_width, count, sizes_ok=True):
         out.append(packet(names.new("Bs"), [scalar("a", w)]))
         out.append(packet(names.new("Br"), [reserved(w), scalar("a", 8)]))
     # every field width 1..63 in a two-field group
-    for w in range(1, 64):
+    for w in (range(1, 64, 2) if quick else range(1, 64)):
+        w = w if not quick else (w if rng.random() < 0.5 else w + 1)
+        if w > 63:
+            w = 63
         pad = (8 - w % 8) % 8
         fs = [scalar("a", w)] + ([scalar("p", pad)] if pad else [])
         out.append(packet(names.new("Bw"), fs if rng.random() < 0.5 else list(reversed(fs))))
@@ -139,7 +142,7 @@ def element_structs(names):
     return s_static, s_sized, s_counted, s_greedy
 
 
-def array_packets(names, rng, enums8, enums16, structs, padding_ok=True, elementsize_ok=True):
+def array_packets(names, rng, enums8, enums16, structs, padding_ok=True, elementsize_ok=True, quick=False):
     s_static, s_sized, s_counted, s_greedy = structs
     out = []
     elems = [("w8", dict(width=8)), ("w16", dict(width=16)), ("w24", dict(width=24)),
@@ -147,6 +150,10 @@ def array_packets(names, rng, enums8, enums16, structs, padding_ok=True, element
              ("e8", dict(type_id=enums8[0]["id"])), ("e16", dict(type_id=enums16[0]["id"])),
              ("sst", dict(type_id=s_static["id"])), ("ssz", dict(type_id=s_sized["id"])),
              ("scn", dict(type_id=s_counted["id"]))]
+    if quick:
+        keep = {"w8", "w16", "w24", "e8", "sst", "ssz"}
+        keep.add(rng.choice(["w32", "w64", "e16", "scn"]))
+        elems = [e for e in elems if e[0] in keep]
     for ename, ekw in elems:
         dynamic = ename in ("ssz", "scn")
         # static counts
@@ -297,16 +304,18 @@ def codec_module(seed, endianness, prefix="", tier="quick"):
     """One big description exercising the Rust backend's supported constructs."""
     rng = random.Random(seed)
     names = Names(prefix)
-    enums = enum_shapes(names, widths=(1, 2, 3, 4, 5, 7, 8, 12, 16, 24, 32, 40, 64))
+    quick = tier == "quick"
+    ewidths = (1, 3, 7, 8, 16, 24, 33, 64) if quick else (1, 2, 3, 4, 5, 7, 8, 12, 16, 24, 32, 40, 63, 64)
+    enums = enum_shapes(names, widths=ewidths)
     by_w = {}
     for e in enums:
         by_w.setdefault(e["width"], []).append(e)
     enums8, enums16 = by_w[8], by_w[16]
     structs = element_structs(names)
-    customs = [custom_field(names.new("Cf"), w) for w in (8, 24, 32, 64)]
+    customs = [custom_field(names.new("Cf"), w) for w in ((8, 24) if quick else (8, 24, 32, 64))]
     decls = list(enums) + list(structs) + customs
-    decls += bitfield_packets(names, rng, by_w, 48 if tier == "quick" else 160)
-    decls += array_packets(names, rng, enums8, enums16, structs)
+    decls += bitfield_packets(names, rng, by_w, 32 if quick else 160, quick=quick)
+    decls += array_packets(names, rng, enums8, enums16, structs, quick=quick)
     decls += payload_packets(names, rng, enums8)
     decls += optional_packets(names, rng, enums8, enums16, structs[0], structs[1])
     decls += typedef_packets(names, rng, enums8, structs[0], structs[1], structs[2], customs)
